@@ -424,7 +424,9 @@ def gen_histories(ctx, exe):
                     first = []
                 ops.append(lean_policy_block(rng, tbl, hdrs, first, midblock))
             else:
-                if rng.random() < 0.04:
+                # (a block holding only a size update is valid HPACK but lshpack_dec_decode answers
+                #  BAD_DATA -- documented deviation; keep at least one field after a size change)
+                if hdrs and rng.random() < 0.04:
                     c = rng.choice([0, 100, 1000, 4096, rng.randint(0, 4096)])
                     ops.append("C%d" % c)
                     exps.append(None)
